@@ -94,8 +94,19 @@ def finite(prog, rep):
 
 def _integral_func(prog, rep, outer_q, tag):
     """The nested integral_func: returns the argsort operand (arg order term) after checking the wrapper shape."""
-    q = f"{outer_q}.get_integral_func.integral_func"
-    fn = prog.func(q)
+    outer = prog.func(outer_q)
+    cands = []
+    stack = list(outer.children.values())
+    while stack:
+        c = stack.pop()
+        stack.extend(c.children.values())
+        if isinstance(c.node, ast.Lambda) or c.node.args.vararg is not None:
+            cands.append(c)
+    cands = [c for c in cands if any(isinstance(n, ast.Attribute) and n.attr == "pdf" for n in ast.walk(c.node))]
+    if len(cands) != 1:
+        raise AnalysisError(f"{outer_q}: expected exactly one nested *args wrapper around self.pdf, found {[c.qualname for c in cands]}")
+    fn = cands[0]
+    q = fn.qualname
     rep.analysed(fn)
     b = builder(prog, fn, inline=False)
     ret = [s for s in cfg_of(fn).all_stmts() if isinstance(s, ast.Return)]
